@@ -975,3 +975,10 @@ func init() {
 		props["C09"].Quick = append(props["C09"].Quick, c16R2, c16R4)
 	})
 }
+
+func init() {
+	lateInits = append(lateInits, func() {
+		// an intrinsic the type checker does not know is an unchecked call (C03)
+		props["C03"].Quick = append(props["C03"].Quick, c01R14)
+	})
+}
